@@ -33,6 +33,9 @@ def restore():
     sh(f"rsync -a --delete --exclude target --exclude .git /repo/ {WS}/repo/")
 
 def apply(mut):
+    if mut.get('patch'):
+        r = sh(f"cd {WS}/repo && git apply --whitespace=nowarn {mut['patch']}")
+        return r.returncode == 0
     p = f"{WS}/repo/{mut['file']}"
     s = open(p).read()
     if mut['old'] not in s:
@@ -55,10 +58,15 @@ def main():
         if a == "--tier": tier = args[i+1]; i += 1
         elif a == "--props": props_override = args[i+1].split(","); i += 1
         elif a == "--extra-props": extra = args[i+1].split(","); i += 1
+        elif a == "--patch": i += 1
         elif a.startswith("--"): pass
         else: names.append(a)
         i += 1
     muts = M if "--all" in args else [m for m in M if any(re.fullmatch(n.replace("*", ".*"), m['name']) for n in names)]
+    if "--patch" in args:
+        pf = args[args.index("--patch") + 1]
+        muts = [dict(name=os.path.basename(os.path.dirname(pf)) or pf, props=props_override or [], patch=pf, file=None, old=None, new=None)]
+        names = []
     setup()
     results = []
     for mut in muts:
